@@ -79,6 +79,12 @@ def value_with_defaults(spec, vg, rng, p_default, marks, path=""):
             if None in sub[1] and rng.random() < 0.2:
                 shape = [0 if d is None else d for d in sub[1]]
             mv[xn] = vg.array(sub[0], sub[1], shape)
+            if d is not None and mv[xn].size > 1 and rng.random() < 0.4:
+                # equal to the default in SOME positions only (still not the default)
+                mask = np.array([rng.random() < 0.5 for _ in range(mv[xn].size)]).reshape(mv[xn].shape)
+                if mask.any() and not mask.all():
+                    mv[xn][mask] = d[mask]
+                    marks.append(path + xn + "(partly)")
     return mv
 
 
